@@ -115,6 +115,29 @@ BIN = {'add': operator.add, 'sub': operator.sub, 'mul': operator.mul, 'div': ope
 IBIN = {'add': operator.iadd, 'sub': operator.isub, 'mul': operator.imul, 'div': operator.itruediv}
 
 
+def h_alias_of_view(ctx, opn, how, D, P):
+    """x op= x.data[0,0] (and x op= x.data[0,0][::-1]) where x is itself a VIEW of a larger
+    polynomial array (z[1:], z.T, z[:, 0]): same coefficients as with an independent copy of the
+    right-hand side, and the rest of z is untouched"""
+    algopy = symx.load_algopy()
+    Z = O.make_input(ctx, O.Arg('utpm', (3, 2), 'nonzero' if opn == 'div' else 'any'), 'z', D, P)
+    pick = {'z[1:]': lambda z: z[1:], 'z.T': lambda z: z.T, 'z[:, 0]': lambda z: z[:, 0], 'z[::-1]': lambda z: z[::-1]}[how]
+    for rv, rview in (('x.data[0,0]', lambda d: d[0, 0]), ('x.data[0,0][::-1]', lambda d: d[0, 0][::-1])):
+        z = mk_utpm(ctx, algopy, Z)
+        x = pick(z)
+        ref_obj = pick(mk_utpm(ctx, algopy, Z)).copy()
+        rhs_indep = np.array(plain(rview(pick(mk_utpm(ctx, algopy, Z)).copy().data)).tolist(), dtype=object)
+        rhs_indep = O.wrap(ctx, algopy, O.Arg('ndarray', rhs_indep.shape), rhs_indep)
+        try:
+            ref = IBIN[opn](ref_obj, rhs_indep)
+            x = IBIN[opn](x, rview(x.data))
+        except Exception as e:
+            ctx.fact(False, '%s: x %s= %s raised %s: %s' % (how, opn, rv, type(e).__name__, str(e)[:80]))
+            continue
+        ctx.eq(plain(x.data), plain(ref.data), 'x = %s; x %s= %s == the same with an independent copy of the right-hand side' % (how, opn, rv))
+        ctx.eq(plain(pick(z).data), plain(ref.data), 'the update is visible through z (x is a view)')
+
+
 def h_alias(ctx, opn, form, shape, D, P):
     algopy = symx.load_algopy()
     shape = tuple(shape)
@@ -399,6 +422,9 @@ def units(tier, seed):
     for opn in BIN:
         for form in ('row op= row[::-1]', 'window op= overlapping window', 'column op= other column', 'reshaped op= its transpose'):
             add('alias/views of one parent/%s/%s' % (form, opn), 'h_alias_views', opn=opn, form=form, D=3, P=2)
+    for opn in BIN:
+        for how in ('z[1:]', 'z.T', 'z[:, 0]', 'z[::-1]'):
+            add('alias/x a view of a larger array (%s)/x op= x.data[0,0]/%s' % (how, opn), 'h_alias_of_view', opn=opn, how=how, D=3, P=2)
     add('alias/pow,dot,outer', 'h_pow_alias', D=D, P=P)
     for r in ('3', '5', '2', '-1', '2.5', 'int64(4)', '1', '0'):
         add('alias/x **= %s/D3,P2' % r, 'h_ipow', r=r, D=3, P=2)
